@@ -29,7 +29,7 @@ def FLOORS(tier):
     q = tier == "quick"
     f = {"convert_solution-checks": 3000 if q else 10 ** 5, "export:Q": 60, "export:hJ": 60,
          "export:matrix_to_qubo": 60, "export:qubo_to_matrix": 100, "real-coefficients": 100,
-         "raw-repeated-labels": 50, "raw-long-spellings": 100, "cleared-and-refilled": 200, "derived-from-common-ancestor": 100, "matrix_to_qubo:tiny-units": 10, "matrix_to_qubo:nearly-symmetric": 10, "all-ones-solution": 30, "user-mapping:set_mapping": 60, "user-mapping:set_reverse_mapping": 60,
+         "raw-repeated-labels": 50, "raw-long-spellings": 100, "cleared-and-refilled": 200, "user-mapping:one-shot-iterator": 40, "convert_solution:numpy-scalar-entries": 300, "derived-from-common-ancestor": 100, "matrix_to_qubo:tiny-units": 10, "matrix_to_qubo:nearly-symmetric": 10, "all-ones-solution": 30, "user-mapping:set_mapping": 60, "user-mapping:set_reverse_mapping": 60,
          "export-before-relabelling": 80, "term-added-after-user-mapping": 40,
          "second-call-after-result-edited": 300, "convert_solution:flag-independent-of-form": 300,
          "user-mapping:positional+keywords": 10}
@@ -192,8 +192,14 @@ def case_method(ctx, rng):
         if rng.random() < 0.5:
             mp_ = {v: perm[i] for i, v in enumerate(vs)}
             strs = [v for v in vs if isinstance(v, str) and v.isidentifier()]
-            style = rng.choice(["dict", "pairs", "positional+keywords", "keywords"])
-            if style == "dict" or (style != "pairs" and not strs):
+            style = rng.choice(["dict", "pairs", "positional+keywords", "keywords", "zip", "items-iterator"])
+            if style == "zip":
+                M.set_mapping(zip(list(mp_), list(mp_.values())))         # dict(*args): any iterable of pairs, one-shot ones included
+                ctx.cat("user-mapping:one-shot-iterator")
+            elif style == "items-iterator":
+                M.set_mapping(iter(list(mp_.items())))
+                ctx.cat("user-mapping:one-shot-iterator")
+            elif style == "dict" or (style != "pairs" and not strs):
                 M.set_mapping(mp_)
             elif style == "pairs":
                 M.set_mapping(list(mp_.items()))
@@ -207,7 +213,12 @@ def case_method(ctx, rng):
                 ctx.cat("user-mapping:positional+keywords")
             ctx.cat("user-mapping:set_mapping")
         else:
-            M.set_reverse_mapping({perm[i]: v for i, v in enumerate(vs)})
+            rm_ = {perm[i]: v for i, v in enumerate(vs)}
+            if rng.random() < 0.3:
+                M.set_reverse_mapping(iter(list(rm_.items())))
+                ctx.cat("user-mapping:one-shot-iterator")
+            else:
+                M.set_reverse_mapping(rm_)
             ctx.cat("user-mapping:set_reverse_mapping")
         if rng.random() < 0.4:
             # the model keeps growing after the user mapping: a new label must get the next free integer
@@ -277,6 +288,11 @@ def case_method(ctx, rng):
         for sform in ("bool", "spin"):
             s = [1 - 2 * b for b in bits] if sform == "spin" else list(bits)
             cont = rng.choice(["list", "tuple", "dict"])
+            if rng.random() < 0.15:
+                # a solution that comes out of numpy (np.unpackbits, an int8 spin array): same numbers, numpy scalar types
+                ty_ = rng.choice([np.uint8, np.int64, np.uint64] if sform == "bool" else [np.int8, np.int64])
+                s = [ty_(v) for v in s]
+                ctx.cat("convert_solution:numpy-scalar-entries")
             sol = s if cont == "list" else (tuple(s) if cont == "tuple" else dict(enumerate(s)))
             flag = sform == "spin"
             if any(v in (0, -1) for v in s) and rng.random() < 0.3:
